@@ -745,7 +745,7 @@ def run(ck):
             specs = world_cases(rng, w, 12 * mult, 5 * mult, 8 * mult, 6 * mult)
             q = queries_of(w["records"])
             for kind, order, mid in specs:
-                recs = [w["records"][i] for i in order]
+                recs = [w["full"][i] for i in order]     # the records as emitted (not the projection the model reads)
                 if kind == "mid-finalize":
                     ops = [("I", r) for r in recs[:mid]] + q + [("I", r) for r in recs[mid:]] + q + q
                 else:
